@@ -1,4 +1,7 @@
 import Fdo.Proto.ServerProofs
+import Fdo.Facts
+import Fdo.Gen.Handler
+import Fdo.Gen.Proto
 /-
 C08 — server effects happen only through in-order, session-bound message sequences.
 
@@ -211,6 +214,31 @@ theorem start_makes_new_session (st : State) (r : Req) (hst : isStart r.typ = tr
   | rejected _ _ _ _ _ h _ _ _ _ => rw [hst] at h; cases h
   | noSession _ _ _ h _ => rw [hst] at h; cases h
 
+
+/-- **The model's tables are the handler's.** Regenerated on every run from http/handler.go,
+server.go (go/ast) and protocol.Of (executed): the message types that start a protocol, the
+response types that end a session, the error branch that invalidates the token, the window of
+encrypted TO2 requests, the request → response dispatch of the four `Respond` methods and the
+protocol of each request type are exactly what `isStart`, `final`, `decrypts`' use in `handle`,
+`handle_resp` and `protoOf` say. A change of any of these in the source changes the generated
+file and breaks this theorem. -/
+theorem model_tables_are_the_handlers :
+    ((List.range 256).all fun t => isStart t == Fdo.Gen.Handler.startTypes.contains t) = true ∧
+    ((List.range 256).all fun t => final t == Fdo.Gen.Handler.finalResponses.contains t) = true ∧
+    Fdo.Gen.Handler.errorInvalidates = true ∧
+    ((List.range 256).all fun t => !(protoOf t == some Proto.to2) ||
+      ((decide (Fdo.Gen.Handler.decryptAbove < t) && decide (t < Fdo.Gen.Handler.decryptBelow)) == (t == 66 || t == 68 || t == 70))) = true ∧
+    (Fdo.Gen.Handler.respondTable.map fun r => (r.2.1, r.2.2.1)) =
+      [(10, 11), (12, 13), (20, 21), (22, 23), (30, 31), (32, 33), (60, 61), (62, 63), (64, 65), (66, 67), (68, 69), (70, 71)] ∧
+    ((List.range 256).all fun t => (protoOf t).isSome == (Fdo.Gen.Handler.respondTable.map (·.2.1)).contains t) = true ∧
+    ((List.range 256).all fun t => match protoOf t with
+      | some .di => Fdo.Gen.Proto.protocolOf[t]? == some 1
+      | some .to0 => Fdo.Gen.Proto.protocolOf[t]? == some 2
+      | some .to1 => Fdo.Gen.Proto.protocolOf[t]? == some 3
+      | some .to2 => Fdo.Gen.Proto.protocolOf[t]? == some 4
+      | none => true) = true := by
+  decide +kernel
+
 /-! Non-vacuity: a history in which every effect occurs, and the known weak point (Done accepted
 straight after DeviceServiceInfoReady) as it stands in the code. -/
 
@@ -241,5 +269,18 @@ example : (run (init [1] false 2) [
     { tok := .sess 0, typ := 66, enc := some (0, 7), hmac := true },
     { tok := .sess 0, typ := 70, enc := some (0, 7), nonceOf := some 0 }]).2 =
     [(61, []), (65, []), (67, []), (71, [.replaceVoucher 0 1])] := by decide
+
+
+/-- **What the source does, in which order** (regenerated call-order facts): every effect is
+preceded, in the function that causes it, by the reads of the session values that only the
+protocol's earlier messages store, and by the comparisons with them. -/
+theorem code_facts :
+    Fdo.Facts.allBefore "DIServer.diDone" ["IncompleteVoucherHeader", "DeviceCertChain"] "AddVoucher" = true ∧
+    Fdo.Facts.allBefore "TO0Server.acceptOwner" ["VerifyEntries", "TO0SignNonce", "Equal", "OwnerPublicKey", "Verify"] "SetRVBlob" = true ∧
+    Fdo.Facts.allBefore "TO2Server.to2Done2" ["ProveDeviceNonce", "SetupDeviceNonce", "Equal", "ReplacementHmac", "GUID", "Voucher", "RvInfo", "ReplacementGUID"] "ReplaceVoucher" = true ∧
+    Fdo.Facts.before "TO2Server.ownerServiceInfo" "Devmod" "HandleInfo" = true ∧
+    Fdo.Facts.before "Handler.writeResponse" "Respond" "InvalidateToken" = true ∧
+    Fdo.Facts.before "Handler.ServeHTTP" "NewToken" "handleRequest" = true ∧
+    Fdo.Facts.atLeast "Handler.handleError" "InvalidateToken" 1 = true := by decide +kernel
 
 end Fdo.Props.C08
